@@ -218,6 +218,42 @@ example : (PS.session exEnv [PS.fit32 [1], PS.fit32 [7], PS.fit32 [9], PS.fit32 
   have : exEnv.store (PS.fit32 [9]) = .failure := by simp [exEnv, PS.fit32]
   rw [this]; trivial
 
+/-- **regenerated obligation** (harness/extract/protofacts.go): the shape of the protocol code the session
+    model mirrors — `RecvHello` checks the type, then the body length, then decodes the flags; `Initialize`
+    runs `SendHello` and `RecvHello` as goroutines, waits, looks at the send error first and only then sets
+    `initialized`; `Serve` shakes hands offering a readable store and insists on `CaProtocolPullChunks`, looks at
+    the context at the top of every pass, reads a message and switches on its type: a request may go on to the
+    next pass, abort and unknown types return an error, goodbye returns nil; an error of `GetChunk` that is a
+    `ChunkMissing` is answered with `SendMissing` and the loop continues, any other error ends `Serve`; the reply
+    is `SendProtocolChunk(chunk.ID(), CaProtocolChunkCompressed, Compressor{}.toStorage(chunk.Data()))`;
+    `RequestChunk` writes the request, reads one message and switches on its type; `StartProtocol` asks for
+    chunks and insists on a readable store; `RemoteSSH.GetChunk` puts the session back whatever the result -/
+theorem gen_proto_session :
+    Gen.protoRecvHello = ["if:m.Type!=CaProtocolHello→return-err", "if:len(m.Body)!=8→return-err", "return:Uint64(m.Body)"] ∧
+    Gen.protoInitialize = ["go:SendHello", "go:RecvHello", "Wait", "if:sendErr!=nil→return-err", "if:recvErr!=nil→return-err",
+      "initialized=true", "return:flags"] ∧
+    Gen.protoServeInit = ["Initialize(CaProtocolReadableStore)", "if:flags&CaProtocolPullChunks==0→return-err"] ∧
+    Gen.protoServeLoop = ["select:<-ctx.Done()→return-nil", "select-default→falls", "ReadMessage", "if:err→return-err", "switch:Type"] ∧
+    Gen.protoServeArms = ["CaProtocolRequest→continue,falls,return-err", "CaProtocolAbort→return-err",
+      "CaProtocolGoodbye→return-nil", "default→return-err"] ∧
+    Gen.protoServeRequestCalls = ["ChunkIDFromSlice", "GetChunk", "SendMissing", "Data", "toStorage", "SendProtocolChunk", "ID"] ∧
+    Gen.protoServeGetChunkErr = ["missing:SendMissing,senderr:return-err,continue", "other:return-err"] ∧
+    Gen.protoServeRequestArgs = ["id=ChunkIDFromSlice(m.Body[8:40])", "chunk=GetChunk(id)", "SendMissing(id)",
+      "plain=chunk.Data()", "compressed=Compressor{}.toStorage(plain)",
+      "SendProtocolChunk(chunk.ID(),CaProtocolChunkCompressed,compressed)"] ∧
+    Gen.protoRequestChunk = ["if:!initialized→return-err", "SendProtocolRequest(id,CaProtocolRequestHighPriority)→return-err",
+      "ReadMessage", "switch:Type"] ∧
+    Gen.protoRequestArms = ["CaProtocolMissing→ChunkMissing", "CaProtocolChunk→err,NewChunkFromStorage", "default→err"] ∧
+    Gen.protoStartProtocol = ["Initialize(CaProtocolPullChunks)", "if:flags&CaProtocolReadableStore==0→return-err"] ∧
+    Gen.protoRemoteSSHGetChunk = ["take", "RequestChunk", "put-back", "return"] ∧
+    Gen.site_shape_proto_RecvHello_found = true ∧ Gen.site_shape_proto_Initialize_found = true ∧
+    Gen.site_shape_proto_ServeInit_found = true ∧ Gen.site_shape_proto_ServeLoop_found = true ∧
+    Gen.site_shape_proto_ServeArms_found = true ∧ Gen.site_shape_proto_ServeRequestCalls_found = true ∧
+    Gen.site_shape_proto_ServeGetChunkErr_found = true ∧ Gen.site_shape_proto_ServeRequestArgs_found = true ∧
+    Gen.site_shape_proto_RequestChunk_found = true ∧ Gen.site_shape_proto_RequestArms_found = true ∧
+    Gen.site_shape_proto_StartProtocol_found = true ∧ Gen.site_shape_proto_RemoteSSHGetChunk_found = true := by
+  decide
+
 theorem gen_sites :
     Gen.site_const_CaProtocolMissing_found = true ∧ Gen.site_const_CaProtocolChunk_found = true ∧
     Gen.site_const_CaProtocolRequest_found = true := by decide
